@@ -50,6 +50,7 @@ struct SharedCtl {
   std::atomic<uint64_t> states;
   std::atomic<uint32_t> stop;       // parent asks workers to stop after the current execution
   std::atomic<uint32_t> cache_full;
+  std::atomic<uint32_t> hungry;     // parent's queue is short: workers should donate subtrees
   uint64_t cache_mask;
 };
 extern ExecRec* g_rec;
